@@ -1,6 +1,8 @@
 import HH.Portable
 import HH.Sse
 import HH.Avx
+import HH.Neon
+import HH.WasmB
 import HH.Spec
 import HH.Dispatch
 /-!
@@ -23,6 +25,8 @@ inductive Hasher
   | portable (s : P.State)
   | sse (s : Sse.State)
   | avx (s : Avx.State)
+  | neon (s : NeonB.State)
+  | wasm (s : WasmB.State)
 deriving DecidableEq, Repr
 
 inductive Digest
@@ -36,26 +40,36 @@ def backend : Hasher → Backend
   | portable _ => .portable
   | sse _ => .sse
   | avx _ => .avx
+  | neon _ => .neon
+  | wasm _ => .wasm
 
 def append : Hasher → List (BitVec 8) → Hasher
   | portable s, d => portable (P.append s d)
   | sse s, d => sse (Sse.append s d)
   | avx s, d => avx (Avx.append s d)
+  | neon s, d => neon (NeonB.append s d)
+  | wasm s, d => wasm (WasmB.append s d)
 
 def finalize64 : Hasher → BitVec 64
   | portable s => P.finalize64 s
   | sse s => Sse.finalize64 s
   | avx s => Avx.finalize64 s
+  | neon s => NeonB.finalize64 s
+  | wasm s => WasmB.finalize64 s
 
 def finalize128 : Hasher → BitVec 64 × BitVec 64
   | portable s => P.finalize128 s
   | sse s => Sse.finalize128 s
   | avx s => Avx.finalize128 s
+  | neon s => NeonB.finalize128 s
+  | wasm s => WasmB.finalize128 s
 
 def finalize256 : Hasher → BitVec 64 × BitVec 64 × BitVec 64 × BitVec 64
   | portable s => P.finalize256 s
   | sse s => Sse.finalize256 s
   | avx s => Avx.finalize256 s
+  | neon s => NeonB.finalize256 s
+  | wasm s => WasmB.finalize256 s
 
 def finalize (h : Hasher) : Width → Digest
   | .w64 => .d64 h.finalize64
@@ -66,25 +80,30 @@ def checkpoint : Hasher → List (BitVec 8)
   | portable s => P.checkpoint s
   | sse s => Sse.checkpoint s
   | avx s => Avx.checkpoint s
+  | neon s => NeonB.checkpoint s
+  | wasm s => WasmB.checkpoint s
 
 /-- the constructor of back end `b` from a key (availability is decided by the caller) -/
 def new : Backend → V4 → Option Hasher
   | .portable, k => some (portable (P.new k))
   | .sse, k => some (sse (Sse.new k))
   | .avx, k => some (avx (Avx.new k))
-  | _, _ => none
+  | .neon, k => some (neon (NeonB.new k))
+  | .wasm, k => some (wasm (WasmB.new k))
 
 def default : Backend → Option Hasher
   | .portable => some (portable P.default)
   | .sse => some (sse Sse.default)
   | .avx => some (avx Avx.default)
-  | _ => none
+  | .neon => some (neon NeonB.default)
+  | .wasm => some (wasm WasmB.default)
 
 def fromCheckpoint : Backend → List (BitVec 8) → Option Hasher
   | .portable, c => some (portable (P.fromCheckpoint c))
   | .sse, c => some (sse (Sse.fromCheckpoint c))
   | .avx, c => some (avx (Avx.fromCheckpoint c))
-  | _, _ => none
+  | .neon, c => some (neon (NeonB.fromCheckpoint c))
+  | .wasm, c => some (wasm (WasmB.fromCheckpoint c))
 end Hasher
 
 /-- the configuration under test -/
